@@ -5,7 +5,8 @@ T1   the generated tables (Gen.npzWrite/npzRequire, pickle state, numba struct) 
      subscripts in load_npz, the identity of the objects in the state tuple, the struct fields;
 leg A  model (svdriver) vs implementation on representations: members written by save_npz (names, order,
      object-ness, content), load_npz on well- and ill-formed member sets (result fields or error class),
-     pickle state, numba boxing with narrow coordinate dtypes, shallow-copy aliasing;
+     the two constructors on the load path against the model over an enumerated grid of consistent and inconsistent
+     argument triples (the generated consistency checks), pickle state, numba boxing with narrow coordinate dtypes, shallow-copy aliasing;
 leg C  the property itself: copy (deep/shallow), pickle, njit identity / constructor, save_npz→load_npz
      (compressed and not) reproduce the array; a deep copy shares no storage; every strict prefix of a saved
      file is rejected; a single-byte corruption is rejected or loads the same array.
@@ -37,12 +38,15 @@ import impl
 
 PID = "C14"
 USES = ["npzCommon", "npzWrite", "npzNoneAxesAsEmpty", "npzRequire", "npzEmptyAxesAsNone", "npzRejectLeadingData", "npzVerifyCrc",
-        "cooGetState", "cooSetState", "cooSetStateReset", "cooStruct", "cooShapeDtype", "cooUnbox", "cooBoxArgs", "cooBoxKwargs"]
+        "cooGetState", "cooSetState", "cooSetStateReset", "cooStruct", "cooShapeDtype", "cooUnbox", "cooBoxArgs", "cooBoxKwargs",
+        "gcxsShapeEltOk", "gcxsCtorChecks", "cooCtorChecks", "shapeEltOk"]
 TRUSTED = [
     "Lean 4 kernel; axioms propext, Classical.choice, Quot.sound only (audited per theorem each run)",
-    "tie T1: Gen.npz*/coo* tables regenerated from _io.py, _coo/core.py, _coo/numba_extension.py each run and validated by instrumenting the running code",
-    "tie T2: hand model SparseV.Model.Npz (np.savez/np.load on one member, constructor checks on the load path, CPython copy protocol, "
-    "numba integer conversion) compared with the implementation on representations by this run",
+    "tie T1: Gen.npz*/coo* tables regenerated from _io.py, _coo/core.py, _coo/numba_extension.py each run and validated by instrumenting the running code; "
+    "Gen.gcxsCtorChecks/gcxsShapeEltOk/cooCtorChecks/shapeEltOk translated from GCXS.__init__, COO.__init__, SparseArray.__init__ each run "
+    "(tools/targets.d/C14.py) and compared with the real constructors on an enumerated grid of (data, indices, indptr, axes, shape) / (coords, data, shape)",
+    "tie T2: hand model SparseV.Model.Npz (np.savez/np.load on one member, the order of the constructor checks on the load path incl. check_compressed_axes "
+    "and the TypeError of iterating compressed_axes=None, CPython copy protocol, numba integer conversion) compared with the implementation on representations by this run",
     "NumPy's/zlib's zip+npy container, CPython's pickle and copy modules, numba's (un)boxing of arrays and scalars: assumed; "
     "the container hypotheses of truncation_rejected / corruption_never_other are sampled (exhaustively per file), not proved",
 ]
@@ -582,7 +586,8 @@ def mutate_members(rng, members: dict, other: dict):
     """one mutation of a saved member set -> (description, members) staying inside the modelled domain"""
     m = dict(members)
     keys = list(m)
-    kind = str(rng.choice(["drop", "object", "rename", "foreign", "shorten", "shape", "axes", "reorder", "fill", "none", "drop2"]))
+    kind = str(rng.choice(["drop", "object", "rename", "foreign", "shorten", "shape", "axes", "reorder", "fill", "none", "drop2",
+                           "indptr-len", "indptr-ends", "indices-len", "content"]))
     k = str(rng.choice(keys))
     if kind == "drop":
         del m[k]
@@ -624,6 +629,33 @@ def mutate_members(rng, members: dict, other: dict):
         m = {kk: m[kk] for kk in ks}
     elif kind == "fill":
         m["fill_value"] = np.asarray(m["fill_value"]).dtype.type(1)
+    elif kind == "indptr-len":  # GCXS only (KeyError for a COO member set: the caller skips it)
+        p = np.asarray(m["indptr"]).astype(np.int64)
+        m["indptr"] = p[:-1] if (len(p) and rng.random() < 0.5) else np.append(p, p[-1] if len(p) else 0)
+    elif kind == "indptr-ends":
+        p = np.asarray(m["indptr"]).astype(np.int64).copy()
+        if not len(p):
+            raise ValueError("no indptr entries")
+        if rng.random() < 0.5:
+            p[0] += int(rng.choice([-1, 1]))
+        else:
+            p[-1] += int(rng.choice([-1, 1]))
+        m["indptr"] = p
+    elif kind == "indices-len":
+        i = np.asarray(m["indices"]).astype(np.int64)
+        m["indices"] = i[:-1] if (len(i) and rng.random() < 0.5) else np.append(i, 0)
+    elif kind == "content":  # lengths and end pointers stay consistent: the constructor does not look at the contents
+        i = np.asarray(m["indices"]).astype(np.int64).copy()
+        p = np.asarray(m["indptr"]).astype(np.int64).copy()
+        if len(i) and rng.random() < 0.5:
+            i[int(rng.integers(len(i)))] = int(rng.choice([-3, 10 ** 6]))
+            m["indices"] = i
+        elif len(p) > 2:
+            j = int(rng.integers(1, len(p) - 1))
+            p[j] = int(rng.choice([-2, p[-1] + 5]))
+            m["indptr"] = p
+        else:
+            raise ValueError("nothing to change")
     return kind, m
 
 
@@ -656,6 +688,18 @@ def leg_a_load(ctx, rng, pool, n):
         case = {"mutation": kind, "members": {k: {"dtype": np.asarray(v).dtype.str, "value": np.asarray(v).tolist() if np.asarray(v).dtype != object else None} for k, v in m.items()}}
         reqs.append(["npz_load", mj])
         metas.append((kind, case, real))
+    # the witness of C14.load_contents_unchecked (Model/Npz.lean: uncheckedWitness), replayed on the real load_npz
+    wit = ctx.driver.run([["npz_witnesses"]])[0]["ok"]["unchecked_contents"]
+    wm = {k: (np.asarray(pl["v"], dtype=np.float64) if k == "data" else np.float64(pl["v"]) if k == "fill_value"
+              else np.asarray(pl["v"], dtype=np.int64)) for k, pl in wit}
+    tok = Tok()
+    b = io.BytesIO()
+    np.savez(b, **wm)
+    reqs.append(["npz_load", members_json(wm, tok)])
+    metas.append(("witness-unchecked-contents", {"mutation": "witness-unchecked-contents", "members": {k: np.asarray(v).tolist() for k, v in wm.items()}},
+                  outcome_json(lambda: load_bytes(b.getvalue()), lambda y: arr_json(y, tok))))
+    if "ok" not in metas[-1][2]:
+        ctx.fail("A", "model:witness", metas[-1][1], f"the witness of load_contents_unchecked is rejected by the implementation: {metas[-1][2]}")
     outs = ctx.driver.run(reqs)
     dist = collections.Counter()
     for (kind, case, real), out in zip(metas, outs):
@@ -664,6 +708,74 @@ def leg_a_load(ctx, rng, pool, n):
         if not same_outcome(out, real):
             ctx.fail("A", "model:npz_load", case, f"model {json.dumps(out)[:300]} implementation {json.dumps(real)[:300]}")
     ctx.notes.setdefault("correspondence", {})["load_outcomes"] = dict(dist)
+
+
+def _indptr_candidates(rows, nind):
+    """index pointers around the accepted ones for `rows` compressed rows and `nind` stored indices"""
+    if rows is None:
+        return [[], [0], [0, nind]]
+    good = [0] + [min(nind, k) for k in range(1, rows)] + [nind] if rows >= 1 else [nind]
+    out = [good, good[:-1], good + [nind], [], [1] + good[1:], good[:-1] + [nind + 1]]
+    if rows >= 2:
+        out.append([0] + [nind + 4] + good[2:])  # consistent ends, interior not monotone: accepted (contents are trusted)
+    if rows == 0:
+        out += [[0], [0, 0]]
+    seen, res = set(), []
+    for p in out:
+        if tuple(p) not in seen:
+            seen.add(tuple(p))
+            res.append(p)
+    return res
+
+
+def leg_a_ctor(ctx, quick):
+    """the two constructors load_npz reaches vs the model (Gen.gcxsCtorChecks / Gen.cooCtorChecks inside gcxsCtor / cooCtor):
+    an enumerated grid of consistent and inconsistent argument triples"""
+    import sparse
+    reqs, metas = [], []
+    g_shapes = [(), (0,), (3,), (2, 3), (0, 3), (3, 0), (2, 3, 2), (2, 0, 2), (-1,), (2, -1), (-2, 3, 2)]
+    g_axes = [None, (), (0,), (1,), (2,), (0, 1), (1, 0), (0, 2), (1, 2), (0, 0), (-1,), (3,), (0, 1, 2)]
+    lens = (0, 1, 2) if quick else (0, 1, 2, 3)
+    for shape in g_shapes:
+        nd = len(shape)
+        for ca in g_axes:
+            valid = ca is not None and len(ca) and len(ca) != nd and list(ca) == sorted(set(ca)) and 0 <= min(ca) and max(ca) < nd
+            rows = int(np.prod([shape[a] for a in ca], dtype=np.int64)) if valid else None
+            for ndata in lens:
+                for nind in lens:
+                    if abs(ndata - nind) > 1:
+                        continue
+                    for ptr in _indptr_candidates(rows if rows is None or 0 <= rows <= 6 else None, nind):
+                        data = np.arange(1, ndata + 1, dtype=np.float64)
+                        ind = np.zeros(nind, dtype=np.int64)
+                        case = {"shape": list(shape), "compressed_axes": None if ca is None else list(ca), "len_data": ndata,
+                                "len_indices": nind, "indptr": ptr}
+                        tok = Tok()
+                        real = outcome_json(lambda: sparse.GCXS((data, ind, np.asarray(ptr, dtype=np.int64)), shape=shape,
+                                                                compressed_axes=ca, fill_value=0.0), lambda y: arr_json(y, tok))
+                        reqs.append(["gcxs_ctor", tok.vec(data), ints(ind), ptr, None if ca is None else list(ca), list(shape), tok(np.float64(0.0))])
+                        metas.append(("gcxs", case, real))
+    c_shapes = [(), (0,), (3,), (2, 3), (0, 3), (-1,), (2, -1), (2, 3, 2)]
+    for shape in c_shapes:
+        for nrows in range(0, 4):
+            for ncols in lens:
+                for ndata in lens:
+                    coords = np.zeros((nrows, ncols), dtype=np.int64)
+                    data = np.arange(1, ndata + 1, dtype=np.float64)
+                    case = {"shape": list(shape), "coords_shape": [nrows, ncols], "len_data": ndata}
+                    tok = Tok()
+                    real = outcome_json(lambda: sparse.COO(coords, data, shape=shape, sorted=True, has_duplicates=False, fill_value=0.0),
+                                        lambda y: arr_json(y, tok))
+                    reqs.append(["coo_ctor", mat_json(coords), tok.vec(data), list(shape), tok(np.float64(0.0))])
+                    metas.append(("coo", case, real))
+    outs = ctx.driver.run(reqs)
+    dist = collections.Counter()
+    for (fam, case, real), out in zip(metas, outs):
+        dist[f"{fam}:{'ok' if 'ok' in real else real['err']}"] += 1
+        ctx.case(f"A:ctor:{fam}", case, nontrivial="ok" in real or case.get("len_data", 0) > 0)
+        if not same_outcome(out, real):
+            ctx.fail("A", f"model:{fam}_ctor", case, f"model {json.dumps(out)[:300]} implementation {json.dumps(real)[:300]}")
+    ctx.notes.setdefault("correspondence", {})["constructor_grid_outcomes"] = dict(dist)
 
 
 def leg_a_pickle(ctx, pool):
@@ -1099,7 +1211,8 @@ def run(ctx):
                          "by_class": dict(collections.Counter(cls_name(x) for _, x in pool)),
                          "by_rank": dict(collections.Counter(len(x.shape) for _, x in pool))}
     for name, stage in (("save", lambda: leg_a_save(ctx, pool)),
-                        ("load", lambda: leg_a_load(ctx, rng, pool, 400 if ctx.quick else 6000)),
+                        ("load", lambda: leg_a_load(ctx, rng, pool, 500 if ctx.quick else 8000)),
+                        ("ctor", lambda: leg_a_ctor(ctx, ctx.quick)),
                         ("pickle", lambda: leg_a_pickle(ctx, pool[:: (3 if ctx.quick else 1)])),
                         ("box", lambda: leg_a_box(ctx, rng, 60 if ctx.quick else 600))):
         try:
@@ -1117,7 +1230,9 @@ def run(ctx):
         "arrays: every rank 0-5 x every admissible compressed_axes (enumerated), 12 dtypes x fills {0, nonzero, NaN} on random shapes "
         "(extents 0-7), CSR/CSC, narrow coords dtypes, each COO also with caching on; per array: copy deep/shallow (+copy module), pickle (2 protocols), "
         "njit identity (COO), save_npz/load_npz compressed and not (file path and file object); leg A: members written / round trip / Excluded "
-        "predicate, load_npz on mutated member sets (drop, object, rename, foreign, shorten, shape, axes, reorder, fill), pickle state, numba boxing "
+        "predicate, load_npz on mutated member sets (drop, object, rename, foreign, shorten, shape, axes, reorder, fill, indptr length / end entries, "
+        "indices length, index contents), the GCXS and COO constructors on an enumerated grid of (data, indices, indptr, axes, shape) / (coords, data, shape) "
+        "incl. negative extents, wrong lengths, wrong end pointers, non-monotone interior, pickle state, numba boxing "
         "around dtype limits; damage: EVERY strict prefix and every byte (quick: one replacement value, thorough: six) of the selected files, "
         "all local+npy header bytes of files with members > 4 KiB, the embedded-archive prefix; non-trivial = everything but empty pools; distinct by content hash")
 
